@@ -188,5 +188,6 @@ void set_context(const char* scenario, const char* config, uint64_t, uint64_t) {
 void install_crash_handlers() {}
 void set_trace(bool) {}
 void main_progress() {}
+bool thread_done(int) { return false; }
 
 } // namespace xrt
